@@ -777,7 +777,9 @@ class PX:
         blocks = mir['blocks']
         cfg = self.p.cfg(fn)
         loops = cfg.loops() if top else {}
-        modified = {h: cfg.modified_locals(bs) for h, bs in loops.items()}
+        live = cfg.liveness() if loops else {}
+        # only locals that are live at the loop header carry information across iterations
+        modified = {h: (cfg.modified_locals(bs) & (live.get(h, set()) | {0})) for h, bs in loops.items()}
         fid = self.new_frame(st)
         self.visited_fns.add(fn)
         for i, a in enumerate(args):
@@ -940,6 +942,10 @@ class PX:
         for it in list(st.iters):
             cur = st.iters[it]
             st.iters[it] = {'k': ('e', st.uid(), 0), 'peeked': None}
+        # facts and shapes about values of earlier iterations are dropped: nothing can refer to them any more (loop-carried
+        # locals were replaced by fresh 'lv' terms, iterator cursors by fresh element ids)
+        st.facts = {a: b for a, b in st.facts.items() if self.is_persistent(a)}
+        st.shapes = {a: b for a, b in st.shapes.items() if self.is_persistent(a)}
         for atom, t in carried_tags:
             st.facts[('tag', atom)] = t
         # persistent facts: only those about parameters / initial places
